@@ -37,10 +37,15 @@ Definition prep_init := mkPrep (-1) None (-1) 0%N.
 Inductive popt :=
 | SetType (v : Z)            (* zck_set_ioption(ZCK_VAL_HEADER_HASH_TYPE, v) *)
 | SetSize (v : Z)            (* zck_set_ioption(ZCK_VAL_HEADER_LENGTH, v) *)
-| SetDigest (s : list Z).    (* zck_set_soption(ZCK_VAL_HEADER_DIGEST, s, length s) *)
+| SetDigest (s : list Z)     (* zck_set_soption(ZCK_VAL_HEADER_DIGEST, s, length s) *)
+| ClearErr.                  (* zck_clear_error: clears a recoverable error (state 1), refuses a fatal one (state 2) *)
 
 (** returns the new state and the call's boolean result *)
 Definition set_opt (st : prep) (o : popt) : prep * bool :=
+  match o with
+  | ClearErr => if (1 <? pr_err st)%N then (st, false)
+                else (mkPrep (pr_type st) (pr_digest st) (pr_size st) 0%N, true)
+  | _ =>
   if (0 <? pr_err st)%N then (st, false) else
   let fail e := (mkPrep (pr_type st) (pr_digest st) (pr_size st) e, false) in
   match o with
@@ -60,9 +65,12 @@ Definition set_opt (st : prep) (o : popt) : prep * bool :=
           if negb (Z.of_N ds * 2 =? Z.of_nat (length s)) then fail 2%N
           else match ascii_checksum_to_bin s with
                | Some d => (mkPrep (pr_type st) (Some d) (pr_size st) 0%N, true)
-               | None => fail 2%N
+               | None => (* prep_digest has already been overwritten with the NULL result *)
+                         (mkPrep (pr_type st) None (pr_size st) 2%N, false)
                end
       end
+  | ClearErr => (st, false)   (* not reached *)
+  end
   end.
 
 Definition set_opts (ops : list popt) : prep * list bool :=
